@@ -132,15 +132,19 @@ func run(c *rig.Ctx) {
 	// (1) systematic: switch off and on again at every cycle offset of selected lines and
 	// around every mode transition
 	lines := []int{0, 1, 2, 142, 143, 144, 145, 152, 153}
-	c.Part("offsets", int64(len(lines))*lcdref.LineLen, func(i int64, r *rig.Rng) {
-		line := lines[i/lcdref.LineLen]
-		off := int(i % lcdref.LineLen)
+	c.Part("offsets", 2*int64(len(lines))*lcdref.LineLen, func(i int64, r *rig.Rng) {
+		// every (line, offset) in the first frame (even i) and in a later frame (odd i)
+		line := lines[(i/2)/lcdref.LineLen]
+		off := int((i / 2) % lcdref.LineLen)
 		w := newWorld()
 		if !w.check("power-on") {
 			return
 		}
 		// run into the second frame so that full-length line 0 is used too
 		target := int64(lcdref.FrameLen-2) + int64(line)*lcdref.LineLen + int64(off)
+		if i%4 == 3 {
+			target += lcdref.FrameLen // the third frame
+		}
 		if i%2 == 0 {
 			target = int64(lcdref.FirstLineLen) + int64(line-1)*lcdref.LineLen + int64(off)
 			if line == 0 {
@@ -273,6 +277,7 @@ func run(c *rig.Ctx) {
 			c.Sample(map[string]any{"class": "schedule", "cycles": total, "last_events": fmt.Sprint(w.hist)})
 		}
 	})
+	frames(c)
 	var cells int64
 	for l := range seen {
 		for q := range seen[l] {
